@@ -155,16 +155,25 @@ def evidence(pid, tier, seed, level, results, violations, known_hits, undecided,
     obligations = sum(r.obligations for r in proof)
     discharged = sum(r.discharged for r in proof)
     trusted = sorted(set(t for r in proof for t in r.trusted))
+    # a function whose text is verified in several parts (e.g. GEN and GEN-move assemble the same emitted functions) is listed and counted once
+    fuc, seen = [], set()
+    for r in proof:
+        for f in r.exec_functions:
+            if f['name'] in seen:
+                continue
+            seen.add(f['name'])
+            fuc.append(dict(f, part=r.name))
     if proof:
         cov.update({
             'obligations': obligations, 'discharged': discharged,
+            'obligations_note': 'obligations/discharged are summed over the parts (Verus files); parts that assemble the same functions re-verify them, functions_under_contract lists each function once (%d distinct exec functions)' % len(fuc),
             'obligation_unit': 'one obligation = one Verus function (exec function with its contract, proof lemma, or recursive spec function termination) checked by Z3; each bundles all of that function\'s pre/postcondition, invariant, termination, overflow and panic-freedom conditions',
             'checker_cmd': ' ; '.join(r.checker_cmd for r in proof),
             'back_end': 'Verus 0.2026.09.13 / Z3 (bundled)',
             'trusted_base': trusted,
             'solver_ms': sum(r.smt_ms for r in proof),
-            'functions_under_contract': [dict(f, part=r.name) for r in proof for f in r.exec_functions],
-            'proved_exec_functions': sum(1 for r in proof for f in r.exec_functions if f.get('verified')),
+            'functions_under_contract': fuc,
+            'proved_exec_functions': sum(1 for f in fuc if f.get('verified')),
             'lemmas': sum(r.lemmas for r in proof),
             'vacuity_canary': {r.name: r.canary for r in proof},
             'stability_reruns': {r.name: r.stability for r in proof if r.stability},
